@@ -714,11 +714,28 @@ Qed.
    bytes (even a complete valid configuration), a malformed or unknown
    configuration, a wrong method, GET, probe traffic -: unless the answer is
    200 to a POST, config text, request half and response half are untouched. *)
+Definition is_setter (c : cmd) : bool :=
+  match c with SetReq _ | SetRes _ => true | _ => false end.
+
 Theorem only_200_changes_active : forall n a c,
+  is_setter c = false ->
   snd (impl_step n a c) <> OStatus true -> fst (impl_step n a c) = a.
 Proof.
-  intros n a c H. destruct c as [t|k cond| |t|]; cbn [impl_step] in *; try reflexivity.
+  intros n a c Hs H. destruct c as [t|k cond| |t| |o|o]; cbn [impl_step] in *; try reflexivity; try discriminate.
   unfold post in *. destruct (compile t) as [r|]; cbn [fst snd] in *; [congruence|reflexivity].
+Qed.
+
+(* an accepted POST installs the freshly parsed tree whatever was there: the
+   resulting state does not depend on the previous one (in particular POSTing
+   the configuration that is already active is not a no-op: overrides made
+   through the setters are gone, the tree instance is new) *)
+Theorem accepted_post_ignores_previous_state : forall n a a' t,
+  has_bad t = false -> fst (post n a t) = fst (post n a' t) /\ snd (post n a t) = true
+  /\ oreq (fst (post n a t)) = n /\ ores (fst (post n a t)) = n.
+Proof.
+  intros n a a' t H. unfold post. destruct (compile t) as [r|] eqn:E.
+  - cbn. auto.
+  - apply rejects_whole in E. congruence.
 Qed.
 
 (* what the Modifier does = what the last accepted tree means *)
@@ -729,33 +746,53 @@ Definition rel (a : active) (cur : option (nat * tree)) : Prop :=
 Lemma rel_init : rel init_active None.
 Proof. split; [reflexivity|]. intros [] cond; reflexivity. Qed.
 
-Lemma step_refines : forall n a cur c, rel a cur ->
-  snd (impl_step n a c) = snd (spec_step n cur c) /\
-  rel (fst (impl_step n a c)) (fst (spec_step n cur c)).
+(* the Modifier against the specification state of reconfiguration scripts *)
+Definition srel (a : active) (st : sstate) : Prop :=
+  acfg a = s_cfg st /\ oreq a = s_oreq st /\ ores a = s_ores st /\
+  forall cond, serve a KReq cond = s_req st cond /\ serve a KRes cond = s_res st cond.
+
+Lemma srel_init : srel init_active s_init.
+Proof. repeat split. Qed.
+
+Lemma srel_sel : forall a st k cond, srel a st -> serve a k cond = sel k (s_req st) (s_res st) cond.
+Proof. intros a st k cond (_ & _ & _ & H). destruct (H cond). now destruct k. Qed.
+
+Lemma srel_origin : forall a st k, srel a st -> sel k (oreq a) (ores a) = sel k (s_oreq st) (s_ores st).
+Proof. intros a st k (_ & H1 & H2 & _). now destruct k. Qed.
+
+Lemma step_refines : forall n a st c, srel a st ->
+  snd (impl_step n a c) = snd (spec_step n st c) /\
+  srel (fst (impl_step n a c)) (fst (spec_step n st c)).
 Proof.
-  intros n a cur c [Hc Hs]. destruct c as [t|k cond| |t|]; cbn [impl_step spec_step];
-    try (cbn [fst snd]; split; [reflexivity|split; assumption]).
+  intros n a st c Hr. destruct c as [t|k cond| |t| |o|o]; cbn [impl_step spec_step];
+    try (cbn [fst snd]; split; [reflexivity|exact Hr]).
   - destruct (has_bad t) eqn:Hb.
-    + rewrite (reject_keeps_active n a t Hb). cbn. split; [reflexivity|]. split; assumption.
+    + rewrite (reject_keeps_active n a t Hb). cbn. split; [reflexivity|exact Hr].
     + destruct (accept_replaces n a t Hb) as (H1 & H2 & H3).
+      destruct (accepted_post_ignores_previous_state n a a t Hb) as (_ & _ & H4 & H5).
       destruct (post n a t) as [a' ok]. cbn [fst snd] in *. subst ok.
-      split; [reflexivity|]. split; assumption.
-  - cbn [fst snd]. rewrite Hs. split; [reflexivity|]. split; assumption.
-  - cbn [fst snd]. rewrite Hc. split; [reflexivity|]. split; assumption.
+      split; [reflexivity|]. unfold srel, s_of_tree. cbn [s_cfg s_oreq s_ores s_req s_res].
+      repeat split; auto.
+  - cbn [fst snd]. rewrite (srel_sel a st k cond Hr), (srel_origin a st k Hr). split; [reflexivity|exact Hr].
+  - cbn [fst snd]. pose proof Hr as (Hc & _). rewrite Hc. split; [reflexivity|exact Hr].
+  - cbn [fst snd]. split; [reflexivity|]. destruct Hr as (Hc & H1 & H2 & H).
+    repeat split; cbn; auto; try (destruct (H cond); assumption). destruct o; reflexivity.
+  - cbn [fst snd]. split; [reflexivity|]. destruct Hr as (Hc & H1 & H2 & H).
+    repeat split; cbn; auto; try (destruct (H cond); assumption). destruct o; reflexivity.
 Qed.
 
-Theorem script_refines : forall cs n a cur, rel a cur ->
-  impl_script n a cs = spec_script n cur cs.
+Theorem script_refines : forall cs n a st, srel a st ->
+  impl_script n a cs = spec_script n st cs.
 Proof.
-  induction cs as [|c cs IH]; intros n a cur Hr; [reflexivity|].
+  induction cs as [|c cs IH]; intros n a st Hr; [reflexivity|].
   cbn [impl_script spec_script].
-  destruct (step_refines n a cur c Hr) as [Ho Hr'].
-  destruct (impl_step n a c) as [a' o]. destruct (spec_step n cur c) as [cur' o'].
+  destruct (step_refines n a st c Hr) as [Ho Hr'].
+  destruct (impl_step n a c) as [a' o]. destruct (spec_step n st c) as [st' o'].
   cbn [fst snd] in *. subst o'. f_equal. now apply IH.
 Qed.
 
-Theorem reconfiguration : forall cs, impl_script 0 init_active cs = spec_script 0 None cs.
-Proof. intros. apply script_refines, rel_init. Qed.
+Theorem reconfiguration : forall cs, impl_script 0 init_active cs = spec_script 0 s_init cs.
+Proof. intros. apply script_refines, srel_init. Qed.
 
 (* ------------------------------------------------------------------ *)
 (* Oracles                                                             *)
@@ -778,11 +815,15 @@ Proof.
   rewrite andb_true_iff, !nlist_eqb_eq. split; [intros [-> ->]; reflexivity|intros E; inversion E; auto].
 Qed.
 
+Lemma natlist_eqb_eq : forall a b, list_eqb Nat.eqb a b = true <-> a = b.
+Proof. apply list_eqb_eq. exact Nat.eqb_eq. Qed.
+
 Lemma obs_eqb_eq : forall a b, obs_eqb a b = true <-> a = b.
 Proof.
-  intros [x|t1 e1|x|x] [y|t2 e2|y|y]; cbn; try (split; congruence).
+  intros [x|t1 e1 o1| |x|x] [y|t2 e2 o2| |y|y]; cbn; try (split; congruence).
   - rewrite eqb_true_iff. split; congruence.
-  - rewrite andb_true_iff, !nlist_eqb_eq. split; [intros [-> ->]; reflexivity|intros E; inversion E; auto].
+  - rewrite !andb_true_iff, !nlist_eqb_eq, natlist_eqb_eq.
+    split; [intros [[-> ->] ->]; reflexivity|intros E; inversion E; auto].
   - destruct x as [x|], y as [y|]; cbn; try (split; congruence).
     rewrite Nat.eqb_eq. split; congruence.
   - rewrite N.eqb_eq. split; congruence.
@@ -793,7 +834,7 @@ Theorem c12_ok_iff : forall k cond t o,
 Proof. intros. apply outcome_eqb_eq. Qed.
 
 Theorem c12_script_ok_iff : forall cs observed,
-  c12_script_ok cs observed = true <-> observed = spec_script 0 None cs.
+  c12_script_ok cs observed = true <-> observed = spec_script 0 s_init cs.
 Proof. intros. apply list_eqb_eq. exact obs_eqb_eq. Qed.
 
 Theorem impl_agrees_iff : forall k cond t o,
@@ -877,32 +918,38 @@ Fixpoint posts (cs : list cmd) : list tree :=
 Fixpoint probe_obs (os : list obs) : list eff :=
   match os with
   | [] => []
-  | OOut t e :: os' => (t, e) :: probe_obs os'
+  | OOut t e _ :: os' => (t, e) :: probe_obs os'
   | _ :: os' => probe_obs os'
   end.
 
+(* scripts of the POSTing thread and one probing thread; the public setters
+   are not part of this scenario *)
 Definition same_probe (k : kind) (cond : N -> bool) (c : cmd) : Prop :=
-  match c with Probe k' cond' => k' = k /\ cond' = cond | _ => True end.
+  match c with
+  | Probe k' cond' => k' = k /\ cond' = cond
+  | SetReq _ | SetRes _ => False
+  | _ => True
+  end.
 
-Definition meaning_of (k : kind) (cond : N -> bool) (cur : option (nat * tree)) : eff :=
-  match cur with Some (_, t) => eval k cond t | None => eff0 end.
+Definition meaning_of (k : kind) (cond : N -> bool) (st : sstate) : eff :=
+  sel k (s_req st) (s_res st) cond.
 
-Lemma interleaving_spec : forall k cond cs n cur,
+Lemma interleaving_spec : forall k cond cs n st,
   Forall (same_probe k cond) cs ->
-  explains (meaning_of k cond cur :: map (eval k cond) (filter (fun t => negb (has_bad t)) (posts cs)))
-           (probe_obs (spec_script n cur cs)).
+  explains (meaning_of k cond st :: map (eval k cond) (filter (fun t => negb (has_bad t)) (posts cs)))
+           (probe_obs (spec_script n st cs)).
 Proof.
-  intros k cond cs. induction cs as [|c cs IH]; intros n cur HF; [constructor|].
+  intros k cond cs. induction cs as [|c cs IH]; intros n st HF; [constructor|].
   inversion HF as [|? ? Hc HF']; subst.
-  destruct c as [t|k' cond'| |t|]; cbn [spec_script spec_step posts probe_obs];
-    try (apply IH; assumption).
+  destruct c as [t|k' cond'| |t| |o|o]; cbn [spec_script spec_step posts probe_obs];
+    try (apply IH; assumption); try contradiction.
   - destruct (has_bad t) eqn:Hb; cbn [probe_obs filter negb].
     + rewrite Hb. cbn [negb]. apply IH; assumption.
-    + rewrite Hb. cbn [negb map]. apply ex_adv. exact (IH (S n) (Some (n, t)) HF').
-  - destruct Hc as [-> ->]. unfold meaning_of at 1.
-    destruct cur as [[i t]|]; cbn [probe_obs fst snd].
-    + rewrite <- surjective_pairing. apply ex_stay. exact (IH (S n) (Some (i, t)) HF').
-    + apply ex_stay. exact (IH (S n) None HF').
+    + rewrite Hb. cbn [negb map]. apply ex_adv.
+      replace (eval k cond t) with (meaning_of k cond (s_of_tree n t)) by (destruct k; reflexivity).
+      exact (IH (S n) (s_of_tree n t) HF').
+  - destruct Hc as [-> ->]. cbn [probe_obs]. fold (meaning_of k cond st).
+    rewrite <- surjective_pairing. apply ex_stay. exact (IH (S n) st HF').
 Qed.
 
 (* For EVERY interleaving: the probe thread's observations walk forward
@@ -913,5 +960,6 @@ Theorem concurrent_probes : forall k cond cs,
   explains (accepted_meanings k cond (posts cs))
            (probe_obs (impl_script 0 init_active cs)).
 Proof.
-  intros. rewrite reconfiguration. exact (interleaving_spec k cond cs 0 None H).
+  intros. rewrite reconfiguration. pose proof (interleaving_spec k cond cs 0 s_init H) as H0.
+  replace (meaning_of k cond s_init) with eff0 in H0 by (destruct k; reflexivity). exact H0.
 Qed.
